@@ -292,18 +292,23 @@ def _c09_scripts(h, vals, clauses=()):
         out.append(("do f() start return 1 end\nshout(f())\n", "accept"))
     elif name.startswith("member_"):
         # draws: receiver type, argument type
-        recv, argt = (flat + [0, 0])[:2]
-        if recv > 7 or argt > 7:
+        # draws: receiver type, type of the first argument, type of the second argument
+        recv, argt, argt2 = (flat + [0, 0, 0])[:3]
+        # an argument of unknown static type (draw 8) is rendered like a dynamic one: both are left to run time
+        argt, argt2 = (6 if argt == 8 else argt), (6 if argt2 == 8 else argt2)
+        if recv > 7 or argt > 7 or argt2 > 7:
             return []
         _m, fname, na = name.split("_")[0], "_".join(name.split("_")[1:-1]), int(name[-1])
-        args = ", ".join([_LIT[argt]] * na)
+        args = ", ".join([_LIT[argt], _LIT[argt2]][:na])
         table = {1: {"len": (0, 0), "trim": (0, 0), "find": (1, 1), "split": (1, 1), "replace": (2, 1), "slice": (2, 2)},
                  3: {"len": (0, 0), "pop": (0, 0), "join": (1, 1), "push": (1, 0)}, 0: {"abs": (0, 0)}, 5: {"success": (0, 0)}, 4: {"run": (0, 0)}}
         if recv == 6:
             adm = True
         else:
             sig = table.get(recv, {}).get(fname)
-            adm = sig is not None and sig[0] == na and not (na >= 1 and sig[1] and argt != 6 and argt != (1 if sig[1] == 1 else 0))
+            want = None if sig is None or not sig[1] else (1 if sig[1] == 1 else 0)
+            off = lambda t: want is not None and t != 6 and t != want
+            adm = sig is not None and sig[0] == na and not (na >= 1 and off(argt)) and not (na >= 2 and sig[0] == 2 and off(argt2))
         recv_expr = "(%s)" % _LIT[recv] if recv in (0,) else _LIT[recv]
         if recv == 3 and fname in ("push", "pop"):
             out.append((pre + "make arr get [1]\narr.%s(%s)\nshout(arr)\n" % (fname, args), "accept" if adm else "reject"))
